@@ -8,7 +8,7 @@ From FF Require Import Lib.Word Gen.Consts_device_acpi_aml Gen.Consts_aml_tree A
   Aml.ParserTotalFrame Aml.ParserTotalFirst Aml.ParserTotalConn Aml.ParserTotalNonNamed Aml.ParserTotalCalls Aml.ParserTotalReloc
   Aml.ParserTotalMerge Aml.ParserTotalResolve Aml.ParserTotalDefer Aml.ParserTotalDeferW Aml.ParserTotalDeferV
   Aml.ParserTotalTyped Aml.ParserTotalShape Aml.ParserTotalChain Aml.ParserTotalConn2 Aml.ParserTotalPass2
-  Aml.ParserTotalBenign Aml.ParserTotalFirst2 Aml.ParserTotalNameLex Aml.ParserTotalGoodPath Aml.ParserTotalFreeName.
+  Aml.ParserTotalBenign Aml.ParserTotalFirst2 Aml.ParserTotalNameLex Aml.ParserTotalGoodPath.
 Import ListNotations.
 Local Open Scope N_scope.
 
@@ -27,7 +27,7 @@ Definition tySw (X : N -> Prop) (s : pstate) (g : ghost) : Prop :=
     name_lead (o_name xo) = false /\ sdirw X (p_tree s) g x (o_infoIndex xo).
 
 Definition LI (X : N -> Prop) (s : pstate) (g : ghost) : Prop :=
-  glive g 0 /\ groot g 0 /\ is_sb s 0 /\ Forall (is_sb s) (p_scopeStack s) /\ TM2 (p_tree s) g /\ PEND s g /\ tySw X s g /\ FN (p_tree s) /\
+  glive g 0 /\ groot g 0 /\ is_sb s 0 /\ Forall (is_sb s) (p_scopeStack s) /\ TM2 (p_tree s) g /\ PEND s g /\ tySw X s g /\
   (forall n, X n -> glive g n).
 
 (** ---- table facts ---- *)
@@ -119,10 +119,9 @@ Lemma LI_next_holds X s g top rest s' g' :
   FI s g -> LI X s g -> p_scopeStack s = top :: rest -> FI s' g' -> gext g g' ->
   Fw NoP (eq top) s g s' g' -> SSBx s s' -> p_handle s' = p_handle s ->
   (exists xs, newobjs g s' xs /\ forall x, xs = Some x -> ~ glive g x /\ xdesc s g s' g' top x) ->
-  (FN (p_tree s) -> FN (p_tree s')) ->
   LI X s' g'.
 Proof.
-  intros H (H0 & Hr0 & Hsb0 & Hssb & HTM & HP & HtS & HNF & HXs) Est H' G [K Fk0] Hss Hh (xs & Hnew & Hx) Hnf.
+  intros H (H0 & Hr0 & Hsb0 & Hssb & HTM & HP & HtS & HXs) Est H' G [K Fk0] Hss Hh (xs & Hnew & Hx).
   pose proof (fi_R _ _ H) as HR. pose proof (R_gwf _ _ HR) as Hwf. pose proof (fi_R _ _ H') as HR'.
   assert (Htop_sb : is_sb s top) by (rewrite Est in Hssb; inversion Hssb; auto).
   assert (Hscl : forall y, In y (p_scopeStack s) -> glive g y) by (pose proof (fi_scopes _ _ H) as F; rewrite Forall_forall in F; exact F).
@@ -169,7 +168,7 @@ Proof.
       destruct (Hnew x o' Ho' Hlo' Hnx) as [E|(_ & Hb)]; [|contradiction].
       destruct (Hx x E) as (_ & xo & Hxo & Hin & Hrow & _ & _ & _). assert (xo = o') by congruence. subst xo.
       split; [exists top; exact Hin|]. intros Hop. apply (npc_row_nodefer o' Hop Hrow Hd'). }
-  split; [|split; [apply Hnf; exact HNF|intros n Hn; apply (ge_live _ _ G); apply HXs; exact Hn]].
+  split; [|intros n Hn; apply (ge_live _ _ G); apply HXs; exact Hn].
   (* the Scope directives *)
   intros x xo' Hx' Hop' Hhx'. assert (Hlx' : o_opcode xo' <> opFreed) by (rewrite Hop'; discriminate).
   destruct (glive_dec g x) as [Hlx|Hnx].
@@ -206,10 +205,10 @@ Qed.
 Lemma LI_stable_holds X s s' g : LI X s g -> p_tree s' = p_tree s -> p_handle s' = p_handle s ->
   (forall y, In y (p_scopeStack s') -> In y (p_scopeStack s)) -> LI X s' g.
 Proof.
-  intros (H0 & Hr0 & Hsb0 & Hssb & HTM & HP & HtS & HNF & HXs) Et Eh Hst.
+  intros (H0 & Hr0 & Hsb0 & Hssb & HTM & HP & HtS & HXs) Et Eh Hst.
   split; [exact H0|]. split; [exact Hr0|]. split; [unfold is_sb in *; rewrite Et; exact Hsb0|].
   split; [rewrite Forall_forall in *; intros y Hy; unfold is_sb; rewrite Et; apply Hssb; apply Hst; exact Hy|].
-  split; [rewrite Et; exact HTM|]. split; [|split; [|split; [rewrite Et; exact HNF|exact HXs]]].
+  split; [rewrite Et; exact HTM|]. split; [|split; [|exact HXs]].
   - intros x o Hl Ho Hf. rewrite Et in Ho. apply (HP x o Hl Ho). unfold isflag in *. rewrite Et, Eh in Hf. exact Hf.
   - intros x xo Hx Hop Hh. rewrite Et in Hx. rewrite Eh in Hh. rewrite Et. apply (HtS x xo Hx Hop Hh).
 Qed.
@@ -218,7 +217,7 @@ Qed.
 Theorem first_pass_establishes : forall tree g earlier handle data fuel,
   R tree g -> info_valid tree -> glive g 0 -> groot g 0 ->
   (exists o, tget tree 0 = Some o /\ o_opcode o = aml_pOpIntScopeBlock) ->
-  TM2 tree g -> FN tree -> (forall i o, tget tree i = Some o -> o_tableHandle o <> handle) ->
+  TM2 tree g -> (forall i o, tget tree i = Some o -> o_tableHandle o <> handle) ->
   image_small data ->
   N.of_nat (length (t_pool tree)) + 4 * N.of_nat (length data) + 4 <= InvalidIndex ->
   match first_pass fuel (init_state tree earlier handle data) with
@@ -228,7 +227,7 @@ Theorem first_pass_establishes : forall tree g earlier handle data fuel,
   | OutOfFuel => True
   end.
 Proof.
-  intros tree g earlier handle data fuel HR Hi H0 Hr0 Hsb HTM HNF Hfresh Him Hcap.
+  intros tree g earlier handle data fuel HR Hi H0 Hr0 Hsb HTM Hfresh Him Hcap.
   destruct (init_FI tree g earlier handle data HR Hi H0 Him Hcap) as (HFI & Hroom & _).
   set (s0 := with_scopeStack (init_state tree earlier handle data) [0]) in *.
   assert (HL0 : LI (glive g) s0 g).
@@ -236,8 +235,8 @@ Proof.
     - intros x o _ Ho Hf. exfalso. change (p_tree s0) with tree in Ho. unfold isflag in Hf. change (p_tree s0) with tree in Hf. rewrite Ho in Hf.
       destruct (opInfo (o_infoIndex o)) as [[[op fl] af]|]; [|discriminate]. apply andb_prop in Hf. destruct Hf as (_ & Hf).
       apply N.eqb_eq in Hf. apply (Hfresh x o Ho). exact Hf.
-    - split; [|split; [exact HNF|auto]]. intros x xo Hx _ Hh. exfalso. apply (Hfresh x xo Hx). exact Hh. }
-  pose proof (list_spec2 (LI (glive g)) FN parseNextObject_FN (LI_next_holds (glive g)) (LI_stable_holds (glive g)) fuel s0 g HFI Hroom HL0) as W. unfold wp in W.
+    - split; [|auto]. intros x xo Hx _ Hh. exfalso. apply (Hfresh x xo Hx). exact Hh. }
+  pose proof (list_spec2 (LI (glive g)) (LI_next_holds (glive g)) (LI_stable_holds (glive g)) fuel s0 g HFI Hroom HL0) as W. unfold wp in W.
   unfold first_pass, bindM, scopeEnter.
   change (with_scopeStack (init_state tree earlier handle data) (0 :: p_scopeStack (init_state tree earlier handle data))) with s0.
   destruct (parseObjectList fuel s0) as [[res s']| |]; auto.
@@ -263,7 +262,7 @@ Qed.
 Theorem parseAML_body_never_panics_if_names : forall tree g earlier handle data fuel,
   R tree g -> info_valid tree -> glive g 0 -> groot g 0 ->
   (exists o, tget tree 0 = Some o /\ o_opcode o = aml_pOpIntScopeBlock) ->
-  TM2 tree g -> FN tree -> typed tree -> pool_ok earlier tree ->
+  TM2 tree g -> typed tree -> pool_ok earlier tree ->
   (forall i o, tget tree i = Some o -> o_tableHandle o <> handle) ->
   image_small data ->
   (let L := N.of_nat (length (t_pool tree)) + 4 * N.of_nat (length data) + 2 in
@@ -275,15 +274,15 @@ Theorem parseAML_body_never_panics_if_names : forall tree g earlier handle data 
   | OutOfFuel => True
   end.
 Proof.
-  intros tree g earlier handle data fuel HR Hi H0 Hr0 Hsb HTM HNF Htyp Hpool Hfresh Him Hcap Hnames. cbv zeta in Hcap.
+  intros tree g earlier handle data fuel HR Hi H0 Hr0 Hsb HTM Htyp Hpool Hfresh Him Hcap Hnames. cbv zeta in Hcap.
   assert (Hcap0 : N.of_nat (length (t_pool tree)) + 4 * N.of_nat (length data) + 4 <= InvalidIndex) by nia.
-  pose proof (first_pass_establishes tree g earlier handle data fuel HR Hi H0 Hr0 Hsb HTM HNF Hfresh Him Hcap0) as W1.
+  pose proof (first_pass_establishes tree g earlier handle data fuel HR Hi H0 Hr0 Hsb HTM Hfresh Him Hcap0) as W1.
   destruct (init_FI tree g earlier handle data HR Hi H0 Him Hcap0) as (HFI & Hroom & _).
   set (s0 := with_scopeStack (init_state tree earlier handle data) [0]) in *.
   assert (Hinv0 : Inv (earlier ++ [data]) s0).
   { destruct Him as (Hb & Hl). assert (Him' : image_ok data) by (split; [exact Hb|unfold two32 in *; lia]).
     destruct (init_state_Inv tree earlier handle data Him' Hpool) as [A1 A2 A3 A4 A5]. constructor; auto. }
-  pose proof (list_spec2 (LI (glive g)) FN parseNextObject_FN (LI_next_holds (glive g)) (LI_stable_holds (glive g)) fuel s0 g HFI Hroom) as W2.
+  pose proof (list_spec2 (LI (glive g)) (LI_next_holds (glive g)) (LI_stable_holds (glive g)) fuel s0 g HFI Hroom) as W2.
   rewrite parseAML_body_rest2. unfold first_pass in W1, Hnames. unfold bindM, scopeEnter in *.
   change (with_scopeStack (init_state tree earlier handle data) (0 :: p_scopeStack (init_state tree earlier handle data))) with s0 in *.
   destruct (parseObjectList fuel s0) as [[r1 s1]| |] eqn:E1; auto.
@@ -299,7 +298,7 @@ Proof.
     - intros x o _ Ho Hf. exfalso. change (p_tree s0) with tree in Ho. unfold isflag in Hf. change (p_tree s0) with tree in Hf. rewrite Ho in Hf.
       destruct (opInfo (o_infoIndex o)) as [[[op fl] af]|]; [|discriminate]. apply andb_prop in Hf. destruct Hf as (_ & Hf).
       apply N.eqb_eq in Hf. apply (Hfresh x o Ho). exact Hf.
-    - split; [|split; [exact HNF|auto]]. intros x xo Hx _ Hh. exfalso. apply (Hfresh x xo Hx). exact Hh. }
+    - split; [|auto]. intros x xo Hx _ Hh. exfalso. apply (Hfresh x xo Hx). exact Hh. }
   assert (El0 : r_len (p_r s0) = N.of_nat (length data)).
   { unfold s0, init_state. cbn [p_r with_scopeStack with_r]. rewrite (proj2 (setPkgEnd_off _ _)). rewrite init_reader_val. reflexivity. }
   specialize (W2 HLI0). unfold wp in W2. rewrite E1 in W2. destruct W2 as (g1' & F1 & _ & HPhi & Hlen & _ & _).
@@ -316,7 +315,7 @@ Qed.
 Theorem parseAML_body_never_panics : forall tree g earlier handle data fuel,
   R tree g -> info_valid tree -> glive g 0 -> groot g 0 ->
   (exists o, tget tree 0 = Some o /\ o_opcode o = aml_pOpIntScopeBlock) ->
-  TM2 tree g -> FN tree -> typed tree -> pool_ok earlier tree ->
+  TM2 tree g -> typed tree -> pool_ok earlier tree ->
   (forall i o, tget tree i = Some o -> o_tableHandle o <> handle) ->
   image_small data ->
   (let L := N.of_nat (length (t_pool tree)) + 4 * N.of_nat (length data) + 2 in
@@ -327,10 +326,10 @@ Theorem parseAML_body_never_panics : forall tree g earlier handle data fuel,
   | OutOfFuel => True
   end.
 Proof.
-  intros tree g earlier handle data fuel HR Hi H0 Hr0 Hsb HTM HNF Htyp Hpool Hfresh Him Hcap.
+  intros tree g earlier handle data fuel HR Hi H0 Hr0 Hsb HTM Htyp Hpool Hfresh Him Hcap.
   assert (HGP : GPt (earlier ++ [data]) (glive g) tree).
   { intros n no tbl sl Hn HX Hop _. exfalso. apply HX. apply (R_live_glive _ _ HR). exists no. split; [exact Hn|rewrite Hop; discriminate]. }
-  apply (parseAML_body_never_panics_if_names tree g earlier handle data fuel HR Hi H0 Hr0 Hsb HTM HNF Htyp Hpool Hfresh Him Hcap).
+  apply (parseAML_body_never_panics_if_names tree g earlier handle data fuel HR Hi H0 Hr0 Hsb HTM Htyp Hpool Hfresh Him Hcap).
   intros s1 E1. cbv zeta in Hcap.
   assert (Hcap0 : N.of_nat (length (t_pool tree)) + 4 * N.of_nat (length data) + 4 <= InvalidIndex) by nia.
   destruct (init_FI tree g earlier handle data HR Hi H0 Him Hcap0) as (HFI & _).
@@ -345,7 +344,7 @@ Qed.
 Theorem parseAML_never_panics : forall tree g earlier handle data,
   R tree g -> info_valid tree -> glive g 0 -> groot g 0 ->
   (exists o, tget tree 0 = Some o /\ o_opcode o = aml_pOpIntScopeBlock) ->
-  TM2 tree g -> FN tree -> typed tree -> pool_ok earlier tree ->
+  TM2 tree g -> typed tree -> pool_ok earlier tree ->
   (forall i o, tget tree i = Some o -> o_tableHandle o <> handle) ->
   image_small data ->
   (let L := N.of_nat (length (t_pool tree)) + 4 * N.of_nat (length data) + 2 in
@@ -356,6 +355,147 @@ Theorem parseAML_never_panics : forall tree g earlier handle data,
   | OutOfFuel => True
   end.
 Proof. intros. unfold parseAML. apply (parseAML_body_never_panics tree g earlier handle data); assumption. Qed.
+
+(** ---- the same with a postcondition about the state a successful ParseAML returns (see ParserTotalChain.rest_post) ---- *)
+Section Post1.
+Variable K : T -> ghost -> Prop.
+Hypothesis K_move : Kmove K.
+Hypothesis K_upd : Kupd K.
+Hypothesis K_walk : forall f4 pf s g s1 g1, WI s g -> parseDeferredBlocks f4 pf 0 s = Ok (ROk, s1) -> WI s1 g1 -> wstep s g s1 g1 -> TM NoX s1 g1 ->
+  K (p_tree s) g -> K (p_tree s1) g1.
+Variable KI : pstate -> ghost -> Prop.
+Hypothesis KI_KS : forall s g, KI s g -> KS s g.
+Hypothesis KI_loop : forall wf fuel s g, MI KI NoX s g ->
+  wp True (resolve_loop fuel wf) s (fun _ s' => exists g', MI KI NoX s' g').
+Hypothesis K_start : forall s g, MI KI NoX s g -> K (p_tree s) g.
+Variable J : pstate -> ghost -> Prop.
+Hypothesis J_SH : forall s g, J s g -> SH s g.
+Hypothesis J_conn : forall fuel, CN_spec2 J fuel.
+Hypothesis J_KI : forall s g a b c, J s g -> KI (with_counters s a b c) g.
+(** [LIx]: an invariant of the object boundaries of the first pass that implies [LI]; [P0]: what it needs of the initial pool *)
+Variable LIx : (N -> Prop) -> pstate -> ghost -> Prop.
+Variable P0 : T -> ghost -> Prop.
+Hypothesis LIx_LI : forall X s g, LIx X s g -> LI X s g.
+Hypothesis LIx_init : forall X s g, LI X s g -> P0 (p_tree s) g -> LIx X s g.
+Hypothesis LIx_next : forall X s g top rest s' g',
+  FI s g -> LIx X s g -> p_scopeStack s = top :: rest -> FI s' g' -> gext g g' ->
+  Fw NoP (eq top) s g s' g' -> SSBx s s' -> p_handle s' = p_handle s ->
+  (exists xs, newobjs g s' xs /\ forall x, xs = Some x -> ~ glive g x /\ xdesc s g s' g' top x) ->
+  LIx X s' g'.
+Hypothesis LIx_stable : forall X s s' g, LIx X s g -> p_tree s' = p_tree s -> p_handle s' = p_handle s ->
+  (forall y, In y (p_scopeStack s') -> In y (p_scopeStack s)) -> LIx X s' g.
+Hypothesis J_start : forall X s g, LIx X s g -> NAMEOK X s -> J s g.
+
+Theorem parseAML_body_post : forall tree g earlier handle data fuel,
+  R tree g -> info_valid tree -> glive g 0 -> groot g 0 ->
+  (exists o, tget tree 0 = Some o /\ o_opcode o = aml_pOpIntScopeBlock) ->
+  TM2 tree g -> P0 tree g -> typed tree -> pool_ok earlier tree ->
+  (forall i o, tget tree i = Some o -> o_tableHandle o <> handle) ->
+  image_small data ->
+  (let L := N.of_nat (length (t_pool tree)) + 4 * N.of_nat (length data) + 2 in
+   L + L * (8 * N.of_nat (length data) + 3) + 4 <= InvalidIndex) ->
+  match parseAML_body fuel (init_state tree earlier handle data) with
+  | Ok (b, s') => tpost K b s'
+  | Panic => False
+  | OutOfFuel => True
+  end.
+Proof.
+  intros tree g earlier handle data fuel HR Hi H0 Hr0 Hsb HTM HP0 Htyp Hpool Hfresh Him Hcap. cbv zeta in Hcap.
+  assert (Hcap0 : N.of_nat (length (t_pool tree)) + 4 * N.of_nat (length data) + 4 <= InvalidIndex) by nia.
+  assert (Hnames : forall s1, first_pass fuel (init_state tree earlier handle data) = Ok (ROk, s1) -> NAMEOK (glive g) s1).
+  { assert (HGP : GPt (earlier ++ [data]) (glive g) tree).
+    { intros n no tbl sl Hn HX Hop _. exfalso. apply HX. apply (R_live_glive _ _ HR). exists no. split; [exact Hn|rewrite Hop; discriminate]. }
+    intros s1 E1.
+    destruct (init_FI tree g earlier handle data HR Hi H0 Him Hcap0) as (HFI & _).
+    assert (Hw : W (earlier ++ [data]) data (init_state tree earlier handle data)).
+    { split; [reflexivity|]. split; [|exact (fi_rok _ _ HFI)].
+      unfold init_state. cbn [p_r with_r]. rewrite setPkgEnd_data, init_reader_val. reflexivity. }
+    destruct (first_pass_good (earlier ++ [data]) data (glive g) (last_table earlier data) fuel _ _ _ Hw HGP E1) as (Ht1 & Hg1).
+    intros n no tbl sl Hn HX Hop Hv s0 bytes Hs0 Hb. apply (Hg1 n no tbl sl Hn HX Hop Hv s0 bytes); [rewrite Hs0; exact Ht1|exact Hb]. }
+  destruct (init_FI tree g earlier handle data HR Hi H0 Him Hcap0) as (HFI & Hroom & _).
+  set (s0 := with_scopeStack (init_state tree earlier handle data) [0]) in *.
+  assert (Hinv0 : Inv (earlier ++ [data]) s0).
+  { destruct Him as (Hb & Hl). assert (Him' : image_ok data) by (split; [exact Hb|unfold two32 in *; lia]).
+    destruct (init_state_Inv tree earlier handle data Him' Hpool) as [A1 A2 A3 A4 A5]. constructor; auto. }
+  assert (HLI0 : LI (glive g) s0 g).
+  { split; [exact H0|]. split; [exact Hr0|]. split; [exact Hsb|]. split; [constructor; [exact Hsb|constructor]|]. split; [exact HTM|]. split.
+    - intros x o _ Ho Hf. exfalso. change (p_tree s0) with tree in Ho. unfold isflag in Hf. change (p_tree s0) with tree in Hf. rewrite Ho in Hf.
+      destruct (opInfo (o_infoIndex o)) as [[[op fl] af]|]; [|discriminate]. apply andb_prop in Hf. destruct Hf as (_ & Hf).
+      apply N.eqb_eq in Hf. apply (Hfresh x o Ho). exact Hf.
+    - split; [|auto]. intros x xo Hx _ Hh. exfalso. apply (Hfresh x xo Hx). exact Hh. }
+  assert (HLx0 : LIx (glive g) s0 g) by (apply LIx_init; [exact HLI0|exact HP0]).
+  pose proof (list_spec2 (LIx (glive g)) (LIx_next (glive g)) (LIx_stable (glive g)) fuel s0 g HFI Hroom HLx0) as W2.
+  rewrite parseAML_body_rest2. unfold first_pass in Hnames. unfold bindM, scopeEnter in *.
+  change (with_scopeStack (init_state tree earlier handle data) (0 :: p_scopeStack (init_state tree earlier handle data))) with s0 in *.
+  unfold wp in W2.
+  destruct (parseObjectList fuel s0) as [[r1 s1]| |] eqn:E1; auto.
+  destruct W2 as (g1 & F1 & _ & HPhi & Hlen & Hres & HLI).
+  pose proof (fi_R _ _ F1) as A1. pose proof (fi_info _ _ F1) as A2. pose proof (fi_rok _ _ F1) as A3.
+  destruct Hres as [ -> | -> ]; cbn [pres_eqb].
+  2:{ unfold ret. exists g1. destruct (hoare_parseObjectList (earlier ++ [data]) fuel s0 _ s1 Hinv0 E1) as ([B1 B2 B3 B4 B5] & _).
+      split; [exact A1|]. split; [exact A2|]. split; [rewrite B1; exact B5|discriminate]. }
+  destruct (HLI eq_refl) as (HL1 & Hst1).
+  destruct (hoare_parseObjectList (earlier ++ [data]) fuel s0 _ s1 Hinv0 E1) as (I1 & _).
+  assert (Ht1 : typed (p_tree s1)) by (apply (parseObjectList_tyk fuel s0 _ s1 E1); exact Htyp).
+  assert (El0 : r_len (p_r s0) = N.of_nat (length data)).
+  { unfold s0, init_state. cbn [p_r with_scopeStack with_r]. rewrite (proj2 (setPkgEnd_off _ _)). rewrite init_reader_val. reflexivity. }
+  apply (rest2_post (earlier ++ [data]) K K_move K_upd K_walk KI KI_KS KI_loop K_start J J_SH J_conn J_KI fuel s1 g1 A1 A2 A3 Hst1 I1);
+    [apply (J_start (glive g)); [exact HL1|apply Hnames; reflexivity]|exact Ht1|].
+  assert (Hlp : lp s1 <= N.of_nat (length (t_pool tree)) + 4 * N.of_nat (length data) + 2).
+  { unfold Phi, lp, rem in HPhi. pose proof A3 as (_ & _ & O1). change (p_tree s0) with tree in HPhi.
+    unfold lp. rewrite Hlen, El0 in *. lia. }
+  assert (El1 : r_len (p_r s1) = N.of_nat (length data)).
+  { rewrite Hlen. exact El0. }
+  rewrite El1. nia.
+Qed.
+End Post1.
+
+(** the instance with [K] = "slot 0 holds a ScopeBlock": a successful ParseAML returns a pool whose root is again a live parentless
+    ScopeBlock in slot 0 and in which every name-path-or-call object carries a []byte *)
+Definition KR : T -> ghost -> Prop := fun t _ => exists o, tget t 0 = Some o /\ o_opcode o = aml_pOpIntScopeBlock.
+
+Lemma KR_move : Kmove KR.
+Proof.
+  intros s g par x target pre post t2 _ (o & Ho & Hop) _ _ _ _ _ g2 _ _ _ _ Hpf.
+  destruct (proj2 Hpf _ _ Ho) as (o2 & Ho2 & (E1 & _)). exists o2. split; [exact Ho2|congruence].
+Qed.
+Lemma KR_upd : Kupd KR.
+Proof.
+  intros t g p o f _ (ro & Hro & Hrop) Ho Hop _ _. exists ro. split; [|exact Hrop].
+  rewrite get_tset. destruct (N.eqb_spec 0 p) as [<-|_]; [|exact Hro].
+  exfalso. assert (ro = o) by congruence. subst. rewrite Hop in Hrop. vm_compute in Hrop. discriminate.
+Qed.
+Lemma KR_walk (f4 pf : nat) s g s1 g1 : WI s g -> parseDeferredBlocks f4 pf 0 s = Ok (ROk, s1) -> WI s1 g1 -> wstep s g s1 g1 -> TM NoX s1 g1 ->
+  KR (p_tree s) g -> KR (p_tree s1) g1.
+Proof.
+  intros H _ _ S1 _ (o & Ho & Hop).
+  assert (Hl : glive g 0).
+  { apply (R_live_glive _ _ (fi_R _ _ H)). exists o. split; [exact Ho|rewrite Hop; discriminate]. }
+  destruct (ws_keep _ _ _ _ S1 0 o Hl Ho) as (o' & Ho' & (E1 & _) & _). exists o'. split; [exact Ho'|congruence].
+Qed.
+
+Theorem parseAML_body_post_root : forall tree g earlier handle data fuel,
+  R tree g -> info_valid tree -> glive g 0 -> groot g 0 ->
+  (exists o, tget tree 0 = Some o /\ o_opcode o = aml_pOpIntScopeBlock) ->
+  TM2 tree g -> typed tree -> pool_ok earlier tree ->
+  (forall i o, tget tree i = Some o -> o_tableHandle o <> handle) ->
+  image_small data ->
+  (let L := N.of_nat (length (t_pool tree)) + 4 * N.of_nat (length data) + 2 in
+   L + L * (8 * N.of_nat (length data) + 3) + 4 <= InvalidIndex) ->
+  match parseAML_body fuel (init_state tree earlier handle data) with
+  | Ok (b, s') => tpost KR b s'
+  | Panic => False
+  | OutOfFuel => True
+  end.
+Proof.
+  intros tree g earlier handle data fuel HR Hi H0 Hr0 Hsb HTM.
+  apply (parseAML_body_post KR KR_move KR_upd KR_walk KS (fun s g H => H)
+           (resolve_loop_MI KS KS_counters KS_move KS_free KS_reloc)
+           (fun s g HM => mi_sb0 _ _ _ _ HM) SH (fun s g H => H) (fun fuel => proj1 (conn_all2 SH SH_setname SH_attach fuel))
+           (fun s g a b c HS => KS_counters s g a b c (conj (proj1 (proj2 (proj2 (proj2 (proj2 HS))))) (proj2 (proj2 (proj2 (proj2 (proj2 HS)))))))
+           LI (fun _ _ => True) (fun X s g H => H) (fun X s g H _ => H) LI_next_holds LI_stable_holds
+           (fun X s g HL HN => SH_of_LI X s g HL HN) tree g earlier handle data fuel HR Hi H0 Hr0 Hsb HTM I).
+Qed.
 
 (** ---- the hypotheses are satisfiable: a pool that holds just the root scope, the table While (Zero) { } ---- *)
 Definition ex1_ops : list op := [ OpNewNamed opScopeBlock 0 (0x5c, 0, 0, 0) ].
@@ -379,7 +519,7 @@ Lemma parseAML_hyps_example :
   exists (tree : T) (g : ghost) (data : list N),
     R tree g /\ info_valid tree /\ glive g 0 /\ groot g 0 /\
     (exists o, tget tree 0 = Some o /\ o_opcode o = aml_pOpIntScopeBlock) /\
-    TM2 tree g /\ FN tree /\ typed tree /\ pool_ok [] tree /\
+    TM2 tree g /\ typed tree /\ pool_ok [] tree /\
     (forall i o, tget tree i = Some o -> o_tableHandle o <> 1) /\
     image_small data /\
     (let L := N.of_nat (length (t_pool tree)) + 4 * N.of_nat (length data) + 2 in
@@ -395,7 +535,6 @@ Proof.
   split; [apply groot_chk; vm_compute; reflexivity|].
   split; [eexists; split; vm_compute; reflexivity|].
   split; [unfold TM2; apply (Hall (fun m mo => o_opcode mo = aml_pOpMethod -> mtyped2 ex1_tree ex1_ghost m)); intros o Ho Hop; vm_compute in Ho; inversion Ho; subst o; vm_compute in Hop; discriminate|].
-  split; [unfold FN; apply (Hall (fun i o => o_opcode o = opFreed -> name_lead (o_name o) = false)); intros o Ho Hop; vm_compute in Ho; inversion Ho; subst o; vm_compute in Hop; discriminate|].
   split; [unfold typed; apply (Hall (fun i o => o_opcode o <> opFreed -> o_opcode o = aml_pOpIntNamePathOrMethodCall -> exists tbl sl, o_value o = Some (VBytes tbl sl)));
           intros o Ho _ Hop; vm_compute in Ho; inversion Ho; subst o; vm_compute in Hop; discriminate|].
   split; [unfold pool_ok; rewrite Forall_forall; intros o Hin; destruct (In_nth_error _ _ Hin) as (n & Hn);
